@@ -99,6 +99,23 @@ def _inline_at(F, b, g):
         F["blocks"].append(nb)
 
 
+def _mentions(node, g):
+    """does the JSON subtree mention function g other than through one of g's promoted constants?"""
+    if isinstance(node, dict):
+        if node.get("uneval") == g and node.get("promoted") is not None:
+            return False
+        for k, v in node.items():
+            if isinstance(v, str):
+                if v == g or v == "fn:" + g:
+                    return True
+            elif _mentions(v, g):
+                return True
+        return False
+    if isinstance(node, list):
+        return any((x == g or x == "fn:" + g) if isinstance(x, str) else _mentions(x, g) for x in node)
+    return False
+
+
 def _reaches(fns, src, dst, limit=4000):
     seen, work = set(), [src]
     while work and len(seen) < limit:
@@ -168,4 +185,21 @@ def inline_new(dicts):
                 b += 1
         if not changed:
             break
+    # an inlined function nobody calls or mentions any more is dead code for the rules: drop its body (its closures and
+    # promoted constants stay, the inlined copies refer to them)
+    for g in sorted(done):
+        still = False
+        for name, F in fns.items():
+            if name == g:
+                continue
+            for blk in F["blocks"]:
+                t = blk["term"]
+                if t.get("k") == "call" and _callee(t) == g:
+                    still = True
+        if still:
+            continue
+        if any(_mentions(F["blocks"], g) for name, F in fns.items() if name != g):
+            continue          # still referenced as a value (fn item, reified pointer, closure argument)
+        for d in dicts:
+            d["fns"].pop(g, None)
     return done
